@@ -329,6 +329,19 @@ func ruleR20(c *Ctx) *RuleResult {
 			}
 		}
 		scan(fn, 0)
+		// a forwarder hands back what the inner operation answered, as it answered it: re-ordering the result (a sort, a
+		// reversal) makes it a different operation (a queue's Values() sorted by an unstable sort no longer starts with Peek's
+		// element among ties)
+		reorders := ""
+		for _, cl := range allCalls(fn) {
+			if nm := stdCalleeName(p, cl.Common()); strings.HasPrefix(nm, "slices.Sort") || strings.HasPrefix(nm, "sort.") || nm == "slices.Reverse" {
+				reorders = nm
+			}
+		}
+		if reorders != "" {
+			r.bad(key, clause, p.FuncPos(fn), "the wrapper re-orders what the inner operation answered ("+reorders+")")
+			continue
+		}
 		if okAll && !direct {
 			r.ok(key, clause, p.FuncPos(fn), fmt.Sprintf("library calls: %s", strings.Join(dedup(seen), ", ")))
 		} else if !direct && ro.field != "" && writtenOutDelegation(c, ct, fn, ro.field, ro.callee) {
